@@ -11,7 +11,7 @@
     the entry limit. *)
 From Coq Require Import ZArith NArith List Bool String.
 From AGH Require Import Base.Run Model.QLogFile Model.QLog Model.QLogCodec Proofs.QLog Proofs.QLogCursor Proofs.QLogCodec
-  Proofs.QLogCodecScan Proofs.QLogCodecDec Proofs.QLogCodecLoc Proofs.QLogFold.
+  Proofs.QLogCodecScan Proofs.QLogCodecDec Proofs.QLogCodecLoc Proofs.QLogFold Proofs.QLogCodecAll.
 Import ListNotations.
 Local Open Scope Z_scope.
 
@@ -396,6 +396,16 @@ Definition C07_codec_roundtrip_statement : Prop :=
 Theorem C07_codec_roundtrip : forall o e, codec_dom o e -> decode o (encode e) = (false, e).
 Proof. exact codec_roundtrip. Qed.
 Print Assumptions C07_codec_roundtrip.
+
+(** Both halves together: an entry of the codec domain written to a file
+    line is seen again by a search whose term it satisfies: the pre-match on
+    the raw line lets the line through and the decoder returns the entry
+    itself (on which the full match then runs). *)
+Theorem C07_file_line_found : forall o c e v a strict, codec_dom o e ->
+  term_match c (raw_entry (slot e sQH) (slot e sIP) (slot e sCID)) v a strict = true ->
+  quick_line c (encode e) (CTerm v a strict) = true /\ decode o (encode e) = (false, e).
+Proof. exact file_line_found. Qed.
+Print Assumptions C07_file_line_found.
 
 (** The two layers separately. *)
 Theorem C07_scan_encode : forall e, texts_ok e -> scan (encode e) = t_encode e.
